@@ -116,6 +116,21 @@ def in_set(x, vals):
     return z3.Or([x == v for v in vals])
 
 
+def dec_valid(cls, d):
+    """the decoded content is a message inside the protocol value ranges (C13) - a parser may refuse anything else"""
+    from .valid_msg import HYPERFRAME
+    c = [d["fn"] >= 0, d["fn"] <= HYPERFRAME - 1]
+    if cls == "tx":
+        c += [z3.Not(d["burst_none"]), z3.Or(d["blen"] == 148, d["blen"] == 444)]
+        return z3.And(c)
+    c += [d["rssi"] >= -120, d["rssi"] <= -47]
+    v0 = z3.And(z3.Not(d["burst_none"]), z3.Or(d["blen"] == 148, d["blen"] == 444))
+    lens = z3.Or([z3.And(d["coding"] == cd, d["blen"] == bl, d["tsc_set"] <= (3 if cd == 0 else 1)) for (cd, bl) in sorted(set(MOD_TABLE.values()))])
+    v1 = z3.And(d["ci"] >= -1280, d["ci"] <= 1280, z3.If(d["nope"], d["burst_none"], z3.And(z3.Not(d["burst_none"]), lens)))
+    c.append(z3.If(d["ver"] == 0, v0, v1))
+    return z3.And(c)
+
+
 def dec(cls, octet, n):
     """Interpretation of a datagram (octet function, length n) per the layout.
 
